@@ -310,6 +310,17 @@ def c03_curated():
     P.append(Program("lat_upper_bound", [R("init", I, I), R("add", I, I), R("hi", I, I, lattice=True)], [
         rule(H("hi", x, v_), Cl("init", x, v_)),
         rule(H("hi", z_, Call("min", Bin("+", a, b), C(2))), Cl("add", z_, x), Cl("hi", x, a), Cl("hi", z_, b))]))
+    # upward-closed reads with the lattice column bound to a constant: the top element of a partial order (reached
+    # only by joining two incomparable values) and `true` of the bool lattice, through indices that include the
+    # lattice column
+    P.append(Program("lat_top_read", [R("assign", I, I), R("copy", I, I), R("val", I, "ConstPropagation<i32>", lattice=True), R("unknown", I)], [
+        rule(H("val", x, Ctor("Constant", c)), Cl("assign", x, c)),
+        rule(H("val", x, v_), Cl("copy", x, y), Cl("val", y, v_)),
+        rule(H("unknown", x), Cl("val", x, Ctor("ConstPropagation::Top")))], prelude=CP_PRELUDE))
+    P.append(Program("lat_bool_flag", [R("work", I, I), R("okd", I, I), R("wanted", I), R("done", I, I, "bool", lattice=True), R("finisher", I, I)], [
+        rule(H("done", t, w, C(False)), Cl("work", t, w)),
+        rule(H("done", t, w, C(True)), Cl("work", t, w), Cl("okd", t, w)),
+        rule(H("finisher", t, w), Cl("wanted", t), Cl("done", t, w, C(True)))]))
     P.append(Program("lat_nokey", [R("s", I), R("mx", I, lattice=True), R("mn", DI, lattice=True), R("both", I, I)], [
         rule(H("mx", x), Cl("s", x)),
         rule(H("mn", Ctor("Dual", x)), Cl("s", x)),
@@ -337,6 +348,13 @@ def c13_extra():
 # ------------------------------------------------------------------------------------ C04 (negation / aggregation)
 WSUM_PRELUDE = """pub fn wsum<'a>(inp: impl Iterator<Item = (&'a i32, &'a i32)>) -> impl Iterator<Item = i32> {
       std::iter::once(inp.map(|(a, b)| a * 3 + b).sum())
+   }"""
+
+
+ENDS_PRELUDE = """pub fn ends<'a>(inp: impl Iterator<Item = (&'a i32,)>) -> impl Iterator<Item = i32> {
+      let v: Vec<i32> = inp.map(|t| *t.0).collect();
+      let (mn, mx) = (v.iter().min().cloned(), v.iter().max().cloned());
+      mn.into_iter().chain(mx.filter(|m| Some(*m) != mn))
    }"""
 
 
@@ -395,6 +413,10 @@ def c04_curated():
         rule(H("best", x, s_), Cl("g", x), Agg(PV("s"), "wsum", ["b", "a"], "cand", [x, V("a"), V("b")])),
         rule(H("best2", x, s_), Cl("g", x), Agg(PV("s"), "wsum", ["a", "b"], "cand", [V("a"), x, V("b")]))],
         prelude=WSUM_PRELUDE))
+    # an aggregator that yields two results for one group: the rule fires once per result
+    P.append(Program("agg_multi_result", [R("score", I, I), R("p", I), R("podium", I, I), R("n_podium", "usize")], [
+        rule(H("podium", x, s_), Cl("p", x), Agg(PV("s"), "ends", ["v"], "score", [x, V("v")])),
+        rule(H("n_podium", n), Agg(PV("n"), "count", [], "podium", [_, _]))], prelude=ENDS_PRELUDE))
     P.append(Program("neg_expr_args", [R("e", I, I), R("k", I), R("a", I), R("b", I, I)], [
         rule(H("a", x), Cl("k", x), Neg("e", [Bin("%", Bin("+", x, C(1)), C(3)), x])),
         rule(H("b", x, y), Cl("e", x, y), Neg("e", [y, Bin("%", Bin("+", x, y), C(3))]), Neg("k", [y])),
